@@ -108,7 +108,7 @@ def run(tier, seed):
             add(F.FloatField('x', (lambda s, i, v: None), places=places), round(v, places))
         for _ in range(40 if tier == 'quick' else 2000):
             add(F.FloatField('x', (lambda s, i, v: None), places=places), round(rng.uniform(-1e6, 1e9) * rng.choice([1, 1e-3, 1e3]), places))
-    for v in [0, 1, -1, 10 ** 20, -10 ** 20, 2023, 7]:
+    for v in [0, 1, -1, 10 ** 20, -10 ** 20, 2023, 7, 10 ** 30 + 7, 2 ** 53 + 1, 2 ** 63 - 1, -(2 ** 53) - 1]:
         add(F.IntegerField('x', lambda s, i, v: None), v)
     for v in [True, False]:
         add(F.BooleanField('x', lambda s, i, v: None), v)
